@@ -1,14 +1,9 @@
 package main
 
-import (
-	"go/ast"
-	"go/token"
-	"strings"
-)
 
 func init() {
 	register("C04", true, true, checkC04)
-	register("C06", false, false, checkC06)
+	register("C06", false, true, checkC06)
 }
 
 func checkC04(w *World, tier string) *Report {
@@ -66,67 +61,3 @@ func checkC06(w *World, tier string) *Report {
 	return r
 }
 
-// addR63: out-of-gas normalisation. In Call, for each join-point result X there is, inside
-// `if X.Err != nil { … }`, an `if X.Err.Error() == ErrOutOfGas.Error() { <E> = ErrOutOfGas }`
-// where E is what the frame then returns (X.Err itself or the error result).
-func addR63(w *World, r *Report) {
-	fl := w.newFlow(forkPath(pkVM), "(*EVM).Call")
-	if fl == nil {
-		r.undecided("R6.3", "vm.(*EVM).Call", "-", "function not found")
-		return
-	}
-	jp := map[string]string{}
-	ast.Inspect(fl.fd.Body, func(n ast.Node) bool {
-		if as, ok := n.(*ast.AssignStmt); ok && len(as.Rhs) == 1 && len(as.Lhs) == 1 {
-			if call, ok := as.Rhs[0].(*ast.CallExpr); ok {
-				if k := isJPCall(fl, call); k != "" {
-					jp[fl.canon(as.Lhs[0])] = k
-				}
-			}
-		}
-		return true
-	})
-	errName := fl.resultName(0)
-	for v, kind := range jp {
-		key := "vm.(*EVM).Call/" + kind
-		found := false
-		var pos token.Pos
-		ast.Inspect(fl.fd.Body, func(n ast.Node) bool {
-			outer, ok := n.(*ast.IfStmt)
-			if !ok {
-				return true
-			}
-			if c := fl.canon(outer.Cond); c != v+".Err != nil" {
-				return true
-			}
-			pos = outer.Pos()
-			ast.Inspect(outer.Body, func(m ast.Node) bool {
-				inner, ok := m.(*ast.IfStmt)
-				if !ok {
-					return true
-				}
-				c := fl.canon(inner.Cond)
-				if c != v+".Err.Error() == P0.ErrOutOfGas.Error()" && c != "P0.ErrOutOfGas.Error() == "+v+".Err.Error()" {
-					return true
-				}
-				for _, st := range inner.Body.List {
-					if as, ok := st.(*ast.AssignStmt); ok && len(as.Lhs) == 1 && len(as.Rhs) == 1 && fl.canon(as.Rhs[0]) == "P0.ErrOutOfGas" {
-						l := fl.canon(as.Lhs[0])
-						if l == v+".Err" || l == errName {
-							found = true
-						}
-					}
-				}
-				return true
-			})
-			return true
-		})
-		if found {
-			r.holds("R6.3", key, w.pos(pos), "the join point's textual out-of-gas is replaced by the package variable ErrOutOfGas before the frame's error is returned")
-		} else {
-			r.violated("R6.3", key, w.pos(pos), "no normalisation of the "+kind+"-call join point's out-of-gas error to vm.ErrOutOfGas on its error path")
-		}
-	}
-	r.need("R6.3", 2)
-	_ = strings.TrimSpace
-}
